@@ -12,7 +12,7 @@ head, rest = tmpl.split('The library is supposed to satisfy this property:\n\n',
 _, rest = rest.split('YOUR TASK:', 1)
 task, rest = rest.split('NOTE: ', 1)
 _, tail = rest.split(' Choose a mechanism DIFFERENT from all four.', 1)
-words = {1: 'one other engineer has', 2: 'two', 3: 'three', 4: 'four', 5: 'five', 6: 'six', 7: 'seven', 8: 'eight'}
+words = {1: 'one other engineer has', 2: 'two', 3: 'three', 4: 'four', 5: 'five', 6: 'six', 7: 'seven', 8: 'eight', 9: 'nine'}
 for p in props:
     pid = p['id']; lc = pid.lower()
     earlier = []
